@@ -562,6 +562,9 @@ def r14_10(ctx):
                 partner = next((getattr(v, "tag", None) for v in vals if str(getattr(v, "tag", "")).startswith("partner")), None)
                 key = next((getattr(v, "tag", None) for v in vals if str(getattr(v, "tag", "")).startswith("keydata")), None)
                 seen.append((partner, key))
+            flags = [e.kwargs.get("linkKey") for e in cmds if "linkKey" in e.kwargs]
+            ctx.require(all(v is True for v in flags), f"link-key-flag:v{version}", f"v{version}: the key-table writes carry linkKey={flags}; a link key is written as a "
+                        "link key (True), not as a master key", func=wl, trace=p.trace(20))
             idxs = [e.kwargs.get("index") for e in cmds if "index" in e.kwargs]
             ctx.require(idxs in ([], [0, 1]), f"link-key-index:v{version}", f"v{version}: the two link keys are written at table indices {idxs}; the table is "
                         "filled from index 0 (a shifted start wastes a slot and pushes the last key out of a full table)", func=wl, trace=p.trace(30))
@@ -619,9 +622,12 @@ def r14_11(ctx):
                         func=m, trace=p.trace(12))
     # the application side
     g = repo.func(f"{APP}:ControllerApplication.load_network_info")
-    extra = [("ezsp.read_link_keys", lambda px, t, a, k, fr: [Sym("linkkey1")]),
-             ("ezsp.read_child_data", lambda px, t, a, k, fr: [(Sym("cnwk1"), Sym("ceui1"), Sym("ctype1")), (Sym("cnwk2"), Sym("ceui2"), Sym("ctype2"))]),
-             ("ezsp.read_address_table", lambda px, t, a, k, fr: [(Sym("anwk1"), Sym("aeui1"))])]
+    # (addresses are distinct concrete objects: "is this child already listed" is then decided, not guessed)
+    E1, E2, E3 = "00:11:22:33:44:55:66:01", "00:11:22:33:44:55:66:02", "00:11:22:33:44:55:66:03"
+    extra = [("zigpy.state.NetworkInfo", lambda px, t, a, k, fr: Obj(TypeRef("NetworkInfo"), dict(k), tag="network_info")),
+             ("ezsp.read_link_keys", lambda px, t, a, k, fr: [Sym("linkkey1")]),
+             ("ezsp.read_child_data", lambda px, t, a, k, fr: [(Sym("cnwk1"), E1, Sym("ctype1")), (Sym("cnwk2"), E2, Sym("ctype2"))]),
+             ("ezsp.read_address_table", lambda px, t, a, k, fr: [(Sym("anwk1"), E3)])]
     done = 0
     for p in explore_load(ctx, 0x0084, load_devices=True, extra_models=extra):
         if p.terminal != "return":
@@ -630,6 +636,15 @@ def r14_11(ctx):
         ctx.paths += 1
         ni = [e for e in p.events if e.kind == "call" and e.what.endswith("NetworkInfo")]
         ctx.anchor(len(ni) == 1, "load_network_info builds one NetworkInfo")
+        if isinstance(ni[0].extra, Obj):
+            # the network info is a concrete object here: its collections are read at the end, however they were filled
+            nio = ni[0].extra
+            kt, ch, na = (nio.fields.get(n) for n in ("key_table", "children", "nwk_addresses"))
+            ctx.require(kt == [Sym("linkkey1")] and ch == [E1, E2] and
+                        na == {E1: Sym("cnwk1"), E2: Sym("cnwk2"), E3: Sym("anwk1")}, "load:devices",
+                        f"load_network_info(load_devices=True) records link keys {kt!r}, children {ch!r}, network addresses {na!r}; children are listed by EUI64 and "
+                        "nwk_addresses maps EUI64 -> network address (write_network_info looks children up that way)", func=g, trace=p.trace(20))
+            continue
         kt, ch, na = (ni[0].kwargs.get(n) for n in ("key_table", "children", "nwk_addresses"))
         kt, ch, na = (list(kt) if isinstance(kt, list) else kt), (list(ch) if isinstance(ch, list) else ch), (dict(na) if isinstance(na, dict) else na)
         # the collections may be filled after the NetworkInfo object was built (appends / item stores on its attributes)
@@ -646,8 +661,8 @@ def r14_11(ctx):
                 na[e.args[0]] = e.args[1]
             elif ".nwk_addresses." in w and e.kind in ("call", "write"):
                 raise AnalysisError(f"load_network_info modifies nwk_addresses through {w}, which this rule does not model")
-        ctx.require(kt == [Sym("linkkey1")] and ch == [Sym("ceui1"), Sym("ceui2")] and
-                    na == {Sym("ceui1"): Sym("cnwk1"), Sym("ceui2"): Sym("cnwk2"), Sym("aeui1"): Sym("anwk1")}, "load:devices",
+        ctx.require(kt == [Sym("linkkey1")] and ch == [E1, E2] and
+                    na == {E1: Sym("cnwk1"), E2: Sym("cnwk2"), E3: Sym("anwk1")}, "load:devices",
                     f"load_network_info(load_devices=True) records link keys {kt!r}, children {ch!r}, network addresses {na!r}; children are listed by EUI64 and "
                     "nwk_addresses maps EUI64 -> network address (write_network_info looks children up that way)", func=g, trace=p.trace(20))
     ctx.anchor(done >= 1, "load_network_info(load_devices=True) completes")
